@@ -7,7 +7,7 @@
    Go map). The per-swap observation is a deep snapshot taken at delivery; all delivered
    batches are read again at the end of the history (wfinal). *)
 From Coq Require Export ZArith NArith List Bool String.
-From HI Require Export Model.Watch.
+From HI Require Export Model.Watch Model.WatchLegacy.
 Export ListNotations.
 Open Scope string_scope.
 Open Scope list_scope.
@@ -107,5 +107,85 @@ Definition wcase_ok (c : wcase) : bool :=
   wcheck (wcfg c) w_init (wsteps c) (wobs_l c) &&
   batches_ok (w_batches (wrun (wcfg c) (wsteps c))) (wfinal c).
 
-Definition mismatches (cs : list wcase) : list N :=
-  map wid (filter (fun c => negb (wcase_ok c)) cs).
+(* ---------- legacy controller (pkg/controller/legacy/cache.go) ----------
+   The harness called the REAL k8scache.Notify / SwapChangedObjects (hook VerifNewLegacyEvents)
+   on a sequential history and recorded, per Notify, the flag `clear` afterwards, and per swap
+   the delivered batch: ConfigMap data tokens, the 27 slices as object ids, NeedFullSync,
+   Objects and Links (both in order; Links per resource type, sorted by the harness). gfinal
+   are all delivered batches read again at the end, gnotifs the number of update-queue
+   notifications.
+   Atomicity of Notify and of SwapChangedObjects (each entirely under stateMutex.Lock) is
+   ASSUMED by the model and TESTED by the concurrent legacy stream of the harness: a swap
+   that copies and resets in two critical sections breaks that assumption, so it is the
+   oracle (C14/legacy/...), not a theorem or this comparison, that reports it. *)
+Record lbatch := {
+  lb_gcur : option N; lb_gnew : option N; lb_tcur : option N; lb_tnew : option N;
+  lb_lists : list (llist * list N);
+  lb_full : bool;
+  lb_objects : list string;
+  lb_links : list (string * list string)
+}.
+
+Inductive lobs :=
+| LOEv (clear_after : bool)
+| LOSwap (b : lbatch).
+
+Record legcase := { gid : N; gcfg : lcfg; gsteps : list lstep; gobs : list lobs;
+                    gfinal : list lbatch; gnotifs : N }.
+
+Fixpoint lobs_list (ln : llist) (l : list (llist * list N)) : list N :=
+  match l with
+  | [] => []
+  | (ln', ids) :: r => if llist_eqb ln ln' then ids else lobs_list ln r
+  end.
+
+Definition all_res : list string :=
+  ["Ingress"; "IngressClass"; "Gateway"; "GatewayClass"; "HTTPRoute"; "Endpoints"; "Service";
+   "Secret"; "ConfigMap"; "Pod"].
+
+Definition lbatch_ok (m : lchg) (o : lbatch) : bool :=
+  optN_eqb (lc_gcur m) (lb_gcur o) && optN_eqb (lc_gnew m) (lb_gnew o) &&
+  optN_eqb (lc_tcur m) (lb_tcur o) && optN_eqb (lc_tnew m) (lb_tnew o) &&
+  forallb (fun ln => listN_eqb (map lo_id (llist_of ln (lc_desc m))) (lobs_list ln (lb_lists o))) all_llists &&
+  Nat.eqb (List.length (lc_desc m)) (List.length (List.concat (map snd (lb_lists o)))) &&
+  Bool.eqb (lc_full m) (lb_full o) &&
+  liststr_eqb (lobjects m) (lb_objects o) &&
+  forallb (fun p : string * list string => liststr_eqb (llinks (fst p) m) (snd p)) (lb_links o) &&
+  Nat.eqb (List.length (filter (fun r => match llinks r m with [] => false | _ => true end) all_res))
+          (List.length (lb_links o)).
+
+Fixpoint lcheck (cfg : lcfg) (st : lstate) (steps : list lstep) (obs : list lobs) : bool :=
+  match steps, obs with
+  | [], [] => true
+  | LEv e :: steps', LOEv c :: obs' =>
+      let st' := lstepf cfg st (LEv e) in
+      Bool.eqb (l_clear st') c && lcheck cfg st' steps' obs'
+  | LSwap :: steps', LOSwap b :: obs' =>
+      let st' := lstepf cfg st LSwap in
+      match List.last (map Some (l_batches st')) None with
+      | Some m => lbatch_ok m b
+      | None => false
+      end && lcheck cfg st' steps' obs'
+  | _, _ => false
+  end.
+
+Fixpoint lbatches_ok (ms : list lchg) (os : list lbatch) : bool :=
+  match ms, os with
+  | [], [] => true
+  | m :: ms', o :: os' => lbatch_ok m o && lbatches_ok ms' os'
+  | _, _ => false
+  end.
+
+Definition legcase_ok (c : legcase) : bool :=
+  lcheck (gcfg c) l_init (gsteps c) (gobs c) &&
+  lbatches_ok (l_batches (lrun (gcfg c) (gsteps c))) (gfinal c) &&
+  N.eqb (N.of_nat (l_notifs (lrun (gcfg c) (gsteps c)))) (gnotifs c).
+
+Inductive ccase14 := WC (c : wcase) | LG (c : legcase).
+
+Definition case_ok14 (c : ccase14) : bool :=
+  match c with WC c => wcase_ok c | LG c => legcase_ok c end.
+Definition case_id14 (c : ccase14) : N := match c with WC c => wid c | LG c => gid c end.
+
+Definition mismatches (cs : list ccase14) : list N :=
+  map case_id14 (filter (fun c => negb (case_ok14 c)) cs).
